@@ -228,6 +228,13 @@ def run():
         scen.append(('handler', ([4, 5, 7, 8], nprocs, std3)))
         scen.append(('swapper', ([5, 6, 7], nprocs)))
         scen.append(('gridreduce', ([4, 5, 6, 5], nprocs, std3, rng.randrange(nprocs[0] * nprocs[1]))))
+    # processes with empty blocks (fewer points than processes along a distributed dimension): every member of a
+    # sub-communicator must still issue the Alltoall (the first two hung before 61c5b80)
+    scen.append(('handler', ([2, 1, 1], [2, 3, 1], [[1, 0, 2], [1, 2, 0], [0, 2, 1]])))
+    scen.append(('handler', ([1, 1, 3], [2, 1, 3], [[2, 1, 0], [1, 2, 0], [1, 0, 2]])))
+    scen.append(('handler', ([4, 4, 2, 2], [2, 3], std3)))
+    # (LayoutSwapper is exercised with p <= n only: its constructor orders two handlers by comparing block sizes and
+    # raises IndexError on every rank concerned when both blocks are empty, before any communication)
     for _ in range(10 if quick else 80):
         N, nprocs, layouts = gens.handler_config(rng, max_ranks=6, max_extent=6)
         scen.append(('handler', (N, nprocs, layouts)))
